@@ -806,6 +806,16 @@ int main(int argc, char** argv) {
                  }
                  one_input(t);
                }});
+  // every decimal exponent -420..420 behind mantissas of several shapes: each row of the power-of-ten tables and the
+  // rows just outside them (accepted, rejected as overflow or rounded to zero - and nothing read beyond the tables)
+  S.push_back({"every_decimal_exponent", 841, 841, [](uint64_t i, vf::Rng& r) {
+                 long e = (long)i - 420;
+                 static const char* mant[] = {"1", "2.5", "0.001", "123456789012345678", "9.999999999999999999999", "0.00000000000000000001", "17976931348623157"};
+                 for (const char* mm : mant) {
+                   one_input("[" + std::string(mm) + (r.coin() ? "e" : "E") + std::to_string(e) + "]");
+                   one_input(std::string("-") + mm + "e" + (e >= 0 && r.coin() ? "+" : "") + std::to_string(e));
+                 }
+               }, false});
   // texts with the maximal number of values per byte (one-character scalars, no blanks, empty keys): the parser's node stack
   // is sized from the text length, so these are the valid texts that fill it to the brim; every length 2..400
   S.push_back({"densest_valid_texts", 400, 400, [](uint64_t i, vf::Rng& r) {
